@@ -157,7 +157,8 @@ class DampedOscillation(Contract):
                         tot = L.sum(inp["sv"])
                         acc = None
                         for g in range(case["gaussians"]):
-                            tau = float(t[ti]) - inp["cv"][g] - inp["shv"][gi if dep else 0]
+                            # the same effective IRF position as the decay model of the dataset: centre - shift_i
+                            tau = float(t[ti]) - (inp["cv"][g] - inp["shv"][gi if dep else 0])
                             # positive rates: the causal branch is used on tau > -5 sigma, zero before
                             inside = _decide(tau > -5 * inp["wv"][g], S)
                             if inside:
@@ -248,7 +249,7 @@ class Pfid(Contract):
             for gi in range(len(inp["g"])):
                 om = (float(inp["g"][gi]) - nu) * 0.03 * 2 * np.pi
                 for ti in range(len(t)):
-                    tau = float(t[ti]) - inp["cv"][0] - inp["shv"][gi if dep else 0]
+                    tau = float(t[ti]) - (inp["cv"][0] - inp["shv"][gi if dep else 0])
                     inside = _decide(tau < 5 * inp["wv"][0], S)
                     if inside:
                         term = osc_closed_form(tau, inp["rv"][j], om, inp["wv"][0], -1.0, inp["sv"][0])
